@@ -57,6 +57,7 @@ type Run struct {
 	Prop, Tier, Level string
 	Seed              int64
 	ReplayMode        bool
+	Quiet             bool // helper runs (corpus construction): no printing
 
 	mu          sync.Mutex
 	start       time.Time
@@ -93,6 +94,9 @@ func (r *Run) AddScenario(s ScenarioStat) {
 	r.mu.Lock()
 	r.scen = append(r.scen, s)
 	r.mu.Unlock()
+	if r.Quiet {
+		return
+	}
 	fmt.Printf("[%s] scenario %-28s states=%d transitions=%d depth=%d exhaustive=%v outcomes=%d %s (%.1fs)\n", r.Prop, s.Name, s.States, s.Transitions, s.MaxDepth, s.Exhaustive, s.Outcomes, s.Bound, s.WallS)
 }
 func (r *Run) Sample(v any) {
